@@ -799,6 +799,9 @@ func (p *prover) lenFacts(key string, x ssa.Value) {
 	case *ssa.UnOp:
 		if t.Op == token.MUL {
 			p.condUpdateFact(e, t)
+			if fa, ok := t.X.(*ssa.FieldAddr); ok && fieldNeverEmpty(fa) {
+				p.ge(e, newLin(1))
+			}
 		}
 	case *ssa.Call:
 		n := calleeName(&t.Call)
@@ -1416,7 +1419,87 @@ func proveAt(fn *ssa.Function, in ssa.Instruction) *prover {
 		p.addGuard(g)
 	}
 	p.addExecutedChecks(fn, in)
+	p.addJoinHulls(fn, in)
 	return p
+}
+
+// addJoinHulls: where control joins from edges that each fix the same integer value to a constant (the continuing
+// paths of `if n != 2 && n != 3 { return }`, the body of `case 2, 3:`), the value lies between the smallest and the
+// largest of those constants from the join on.  No single guard dominates the join, so the fact is derived from the
+// join's incoming edges.
+func (p *prover) addJoinHulls(fn *ssa.Function, in ssa.Instruction) {
+	if in == nil || in.Block() == nil {
+		return
+	}
+	// the equality an edge pr -> b establishes, looking up through blocks that only jump on
+	edgeEq := func(pr, b *ssa.BasicBlock) (ssa.Value, int64, bool) {
+		for hops := 0; hops < 4; hops++ {
+			if len(pr.Instrs) == 0 {
+				return nil, 0, false
+			}
+			if iff, ok := pr.Instrs[len(pr.Instrs)-1].(*ssa.If); ok {
+				bo, ok := iff.Cond.(*ssa.BinOp)
+				if !ok || (bo.Op != token.EQL && bo.Op != token.NEQ) {
+					return nil, 0, false
+				}
+				x, y := bo.X, bo.Y
+				if _, isC := x.(*ssa.Const); isC {
+					x, y = y, x
+				}
+				c, isC := constInt(y)
+				if !isC || !isIntType(x.Type()) {
+					return nil, 0, false
+				}
+				onTrue := pr.Succs[0] == b
+				if pr.Succs[0] == pr.Succs[1] {
+					return nil, 0, false
+				}
+				if (bo.Op == token.EQL) == onTrue {
+					return x, c, true
+				}
+				return nil, 0, false
+			}
+			if _, ok := pr.Instrs[len(pr.Instrs)-1].(*ssa.Jump); !ok || len(pr.Preds) != 1 {
+				return nil, 0, false
+			}
+			// a forwarding block must not redefine anything: it only jumps
+			if len(pr.Instrs) != 1 {
+				return nil, 0, false
+			}
+			pr, b = pr.Preds[0], pr
+		}
+		return nil, 0, false
+	}
+	for _, j := range fn.Blocks {
+		if len(j.Preds) < 2 || !(j == in.Block() || j.Dominates(in.Block())) {
+			continue
+		}
+		var x ssa.Value
+		var lo, hi int64
+		ok := true
+		for i, pr := range j.Preds {
+			v, c, has := edgeEq(pr, j)
+			if !has || (i > 0 && v != x) {
+				ok = false
+				break
+			}
+			if i == 0 {
+				x, lo, hi = v, c, c
+			}
+			if c < lo {
+				lo = c
+			}
+			if c > hi {
+				hi = c
+			}
+		}
+		if !ok || x == nil {
+			continue
+		}
+		e := p.lin(x)
+		p.ge(e, newLin(lo))
+		p.ge(newLin(hi), e)
+	}
 }
 
 // addExecutedChecks: every index/slice operation that dominates `at` has been executed without panicking when
@@ -2112,4 +2195,142 @@ func tableRows(g *ssa.Global) map[int64]map[string]int64 {
 	}
 	tableRowsMemo[g] = out
 	return out
+}
+
+var fieldNeverEmptyMemo = map[string]bool{}
+
+// fieldNeverEmpty: the slice field fa addresses — a field of an unexported struct type of the module (a parser's
+// carrier struct, say) — holds at least one element whenever it is read, because that is true of every value ever
+// stored in it anywhere in the module: every allocation of the struct stores into the field, right away, a literal or
+// made slice of at least one element, and every other store into the field stores an append onto the field's own
+// value (or again a value of at least one element).  The struct is never assigned as a whole and the field's address
+// is used for nothing but loads and stores.
+func fieldNeverEmpty(fa *ssa.FieldAddr) bool {
+	if theProgram == nil {
+		return false
+	}
+	pt, ok := fa.X.Type().Underlying().(*types.Pointer)
+	if !ok {
+		return false
+	}
+	named, ok := pt.Elem().(*types.Named)
+	if !ok || named.Obj().Exported() || named.Obj().Pkg() == nil || !isModPkg(named.Obj().Pkg().Path()) {
+		return false
+	}
+	st, ok := named.Underlying().(*types.Struct)
+	if !ok || fa.Field >= st.NumFields() {
+		return false
+	}
+	if _, isSlice := st.Field(fa.Field).Type().Underlying().(*types.Slice); !isSlice {
+		return false
+	}
+	key := named.String() + "#" + st.Field(fa.Field).Name()
+	if v, ok := fieldNeverEmptyMemo[key]; ok {
+		return v
+	}
+	fieldNeverEmptyMemo[key] = false
+	isT := func(t types.Type) bool {
+		if t == nil {
+			return false
+		}
+		n, ok := types.Unalias(t).(*types.Named)
+		return ok && n.Obj() == named.Obj()
+	}
+	sameField := func(x *ssa.FieldAddr) bool {
+		p, ok := x.X.Type().Underlying().(*types.Pointer)
+		return ok && isT(p.Elem()) && x.Field == fa.Field
+	}
+	var atLeastOne func(v ssa.Value, d int) bool
+	atLeastOne = func(v ssa.Value, d int) bool {
+		if d > 4 {
+			return false
+		}
+		switch t := v.(type) {
+		case *ssa.Slice:
+			if t.Low == nil && t.High == nil {
+				if a, ok := t.X.(*ssa.Alloc); ok {
+					if arr, ok := a.Type().Underlying().(*types.Pointer).Elem().Underlying().(*types.Array); ok {
+						return arr.Len() >= 1
+					}
+				}
+			}
+		case *ssa.MakeSlice:
+			n, ok := constInt(t.Len)
+			return ok && n >= 1
+		case *ssa.Call:
+			if calleeName(&t.Call) == "builtin.append" && len(t.Call.Args) == 2 {
+				if atLeastOne(t.Call.Args[0], d+1) || atLeastOne(t.Call.Args[1], d+1) {
+					return true
+				}
+				// append(x.f, …) onto the field itself keeps what it has
+				if l, ok := t.Call.Args[0].(*ssa.UnOp); ok && l.Op == token.MUL {
+					if x, ok := l.X.(*ssa.FieldAddr); ok && sameField(x) {
+						return true
+					}
+				}
+			}
+		}
+		return false
+	}
+	okAll := true
+	nAlloc := 0
+	for _, fn := range theProgram.ModFuncs() {
+		allInstrs(fn, func(in ssa.Instruction) {
+			if !okAll {
+				return
+			}
+			switch t := in.(type) {
+			case *ssa.Alloc:
+				p, ok := t.Type().Underlying().(*types.Pointer)
+				if !ok || !isT(p.Elem()) {
+					return
+				}
+				nAlloc++
+				// the field is stored into in the allocating block, and not read before that
+				inited := false
+				for _, x := range t.Block().Instrs {
+					if st, ok := x.(*ssa.Store); ok {
+						if f, ok := st.Addr.(*ssa.FieldAddr); ok && f.X == ssa.Value(t) && f.Field == fa.Field {
+							inited = true
+						}
+					}
+				}
+				if !inited {
+					okAll = false
+				}
+			case *ssa.Store:
+				if isT(t.Val.Type()) {
+					okAll = false // the struct assigned as a whole
+					return
+				}
+				if f, ok := t.Addr.(*ssa.FieldAddr); ok && sameField(f) && !atLeastOne(t.Val, 0) {
+					okAll = false
+				}
+			case *ssa.FieldAddr:
+				if !sameField(t) {
+					return
+				}
+				for _, r := range *t.Referrers() {
+					switch u := r.(type) {
+					case *ssa.Store:
+						if u.Addr != ssa.Value(t) {
+							okAll = false // the address stored somewhere
+						}
+					case *ssa.UnOp:
+					default:
+						okAll = false
+					}
+				}
+			case *ssa.MakeInterface, *ssa.ChangeType:
+			}
+			// values of the struct type produced other than by allocation (zero values returned, copies)
+			if v, ok := in.(ssa.Value); ok && isT(v.Type()) {
+				if _, isLoad := in.(*ssa.UnOp); !isLoad {
+					okAll = false
+				}
+			}
+		})
+	}
+	fieldNeverEmptyMemo[key] = okAll && nAlloc > 0
+	return fieldNeverEmptyMemo[key]
 }
